@@ -177,6 +177,17 @@ Theorem C29_history_doer : forall c w p w1 hs,
 Proof. exact constructor_history2_ok. Qed.
 Print Assumptions C29_history_doer.
 
+(* The working directory.  remake resolves a relative headDirPath against the
+   working directory of that moment (cfg_at) and stores an absolute .path;
+   close(clear) and the context-manager / doer exit do not depend on the
+   working directory at all: wherever the process has moved to, they do
+   exactly the same to the same absolute paths. *)
+Theorem C29_clear_ignores_cwd : forall c rh cwd1 cwd2 st cl w,
+  run_hop (cfg_at c rh cwd1) st (HClose cl) w = run_hop (cfg_at c rh cwd2) st (HClose cl) w /\
+  run_hop (cfg_at c rh cwd1) st (HExit cl) w = run_hop (cfg_at c rh cwd2) st (HExit cl) w.
+Proof. exact close_ignores_cwd. Qed.
+Print Assumptions C29_clear_ignores_cwd.
+
 (* Non-vacuity of the history theorems: persistent filed Filer "b/x" with a
    sibling's file next to it; reopen(temp=True, clear=True) removes only its
    own file and moves into tmp/T0; the sibling is still there; a final
